@@ -8,10 +8,23 @@ type nodeHTML struct {
 	token     *Token
 	trimLeft  bool
 	trimRight bool
+
+	tpl            *Template // the template this text belongs to
+	afterBlockTag  bool      // directly preceded by the end of a block tag ("%}")
+	beforeBlockTag bool      // directly followed by the start of a block tag ("{%")
 }
 
 func (n *nodeHTML) Execute(ctx *ExecutionContext, writer TemplateWriter) *Error {
 	res := n.token.Val
+	if tpl := ctx.executing; tpl != nil && tpl == n.tpl {
+		if tpl.Options.LStripBlocks && n.beforeBlockTag {
+			res = strings.TrimRight(res, "\t ")
+		}
+		if tpl.Options.TrimBlocks && n.afterBlockTag && len(res) > 0 && res[0] == '\n' {
+			// the first newline after a template tag is removed (like in PHP)
+			res = res[1:]
+		}
+	}
 	if n.trimLeft {
 		res = strings.TrimLeft(res, tokenSpaceChars)
 	}
